@@ -52,6 +52,8 @@ def _events(args):
                                           feature_name="fn", sequence_name="chr",
                                           parent_or_seq_chunk_parent=par if par else None)
                     nm, want = rnd.choice([("feature_name", "fn"), ("xyz", "xyz")])
+                if rnd.random() < 0.25:
+                    E.warm(obj)  # an interval that was already asked everything else
                 o = E.outcome(lambda: read_bed12(str(obj.to_bed12(name=nm, chromosome_relative_coordinates=w is None))))
                 ev.append(["bed", [blocks, st], [cds, st] if (cds and kind == "tx") else [[], "e"], w[0] if w else 0,
                            w is not None, want, o])
